@@ -682,15 +682,15 @@ Proof.
     rewrite !filter_app', I1, I2, I3, !(small_log_filter _ l3 HS) by reflexivity. auto.
 Qed.
 
-Lemma round_trip_events : forall fl cfg a ro e l, round_trip fl cfg a = (ro, e, l) ->
+Lemma round_trip_events : forall fl cfg a t ro e l, round_trip_with fl cfg a t = (ro, e, l) ->
   filter is_ud l = [] /\ filter is_req l = [] /\
   (a_getbody a = None -> filter is_cli l = user_evs EvCli (a_cli a) 0 /\ exists l', l = EvSend :: l') /\
   (a_getbody a <> None -> l = []).
 Proof.
-  intros fl cfg a ro e l H. unfold round_trip in H.
+  intros fl cfg a t ro e l H. unfold round_trip_with in H.
   destruct (a_getbody a) as [x|].
   { inversion H; subst. split; [reflexivity|]. split; [reflexivity|]. split; [intro K; discriminate|auto]. }
-  destruct (receive (a_transport a) fresh_resp) as [[r1 e1] b].
+  destruct (receive t fresh_resp) as [[r1 e1] b].
   destruct (run_cli_digests fl cfg (a_cli a) b _) as [[r3d bd] l_d] eqn:Dg.
   destruct (run_cli_digests_log _ _ _ _ _ _ _ _ Dg) as (D1 & D2 & D3).
   destruct (parse_response_body _ _ _) as [r4 e4].
@@ -701,25 +701,41 @@ Proof.
   - intro K; contradiction.
 Qed.
 
-(* wrappers add only their own enter/leave events around the inner log - or drop it entirely *)
-Lemma run_wraps_events : forall ws i inner ro e l,
-  run_wraps ws i inner = (ro, e, l) ->
+(* wrappers add only their own enter/leave events around whole inner logs *)
+Fixpoint napp {A} (k : nat) (l : list A) : list A := match k with O => [] | S k' => l ++ napp k' l end.
+
+Lemma napp_app : forall {A} j k (l : list A), napp j l ++ napp k l = napp (j + k) l.
+Proof. induction j; intros k l; cbn; [reflexivity|]. rewrite <- app_assoc, IHj. reflexivity. Qed.
+
+Definition calls_inner_once (w : wrap) : Prop := match w with WPass | WPost _ _ => True | _ => False end.
+
+Lemma run_wraps_events : forall ws i in1 in2 ro e l,
+  run_wraps ws i in1 in2 = (ro, e, l) ->
   forall f, (forall k, f (EvWIn k) = false) -> (forall k, f (EvWOut k) = false) ->
-  (filter f l = filter f (snd inner) \/ filter f l = []) /\
-  (Forall (fun w => match w with WShort _ _ _ => False | _ => True end) ws -> filter f l = filter f (snd inner)).
+  (exists k1 k2, filter f l = napp k1 (filter f (snd in1)) ++ napp k2 (filter f (snd in2))) /\
+  (Forall calls_inner_once ws -> filter f l = filter f (snd in1)).
 Proof.
-  induction ws as [|w rest IH]; intros i inner ro e l H f F1 F2; cbn in H.
-  - subst. cbn. auto.
-  - destruct w.
-    + destruct (run_wraps rest (pred i) inner) as [[ro1 e1] l1] eqn:R. inversion H; subst.
-      destruct (IH _ _ _ _ _ R f F1 F2) as [K1 K2]. cbn. rewrite F1, filter_app'. cbn. rewrite F2, app_nil_r.
-      split; auto. intro A. inversion A; subst. auto.
-    + inversion H; subst. cbn. rewrite F1, F2. split; auto. intro A. inversion A; subst. contradiction.
-    + destruct (run_wraps rest (pred i) inner) as [[ro1 e1] l1] eqn:R.
-      destruct (IH _ _ _ _ _ R f F1 F2) as [K1 K2].
-      assert (filter f (EvWIn i :: l1 ++ [EvWOut i]) = filter f l1) as E
-        by (cbn; rewrite F1, filter_app'; cbn; rewrite F2, app_nil_r; reflexivity).
-      destruct ret; inversion H; subst; rewrite E; (split; [auto|intro A; inversion A; subst; auto]).
+  induction ws as [|w rest IH]; intros i in1 in2 ro e l H f F1 F2; cbn in H.
+  - subst. cbn. split; [exists 1%nat, 0%nat; cbn; rewrite !app_nil_r; reflexivity|auto].
+  - assert (forall l1, filter f (EvWIn i :: l1 ++ [EvWOut i]) = filter f l1) as E
+      by (intro l1; cbn; rewrite F1, filter_app'; cbn; rewrite F2, app_nil_r; reflexivity).
+    destruct w.
+    + destruct (run_wraps rest (pred i) in1 in2) as [[ro1 e1] l1] eqn:R. inversion H; subst.
+      destruct (IH _ _ _ _ _ _ R f F1 F2) as [K1 K2]. rewrite E.
+      split; [exact K1|]. intro A. inversion A; subst. auto.
+    + inversion H; subst. cbn. rewrite F1, F2. split; [exists 0%nat, 0%nat; reflexivity|]. intro A. inversion A; subst. contradiction.
+    + destruct (run_wraps rest (pred i) in1 in2) as [[ro1 e1] l1] eqn:R.
+      destruct (IH _ _ _ _ _ _ R f F1 F2) as [K1 K2].
+      destruct ret; inversion H; subst; rewrite E; (split; [exact K1|intro A; inversion A; subst; auto]).
+    + inversion H; subst. cbn. rewrite F1, F2. split; [exists 0%nat, 0%nat; reflexivity|]. intro A. inversion A; subst. contradiction.
+    + destruct (run_wraps rest (pred i) in1 in2) as [[ro1 e1] l1] eqn:R1.
+      destruct (run_wraps rest (pred i) in2 in2) as [[ro2 e2] l2] eqn:R2. inversion H; subst.
+      destruct (IH _ _ _ _ _ _ R1 f F1 F2) as [(a1 & a2 & K1) _].
+      destruct (IH _ _ _ _ _ _ R2 f F1 F2) as [(b1 & b2 & K2) _].
+      split; [|intro A; inversion A; subst; contradiction].
+      exists a1, (a2 + (b1 + b2))%nat.
+      replace (EvWIn i :: l1 ++ l2 ++ [EvWOut i]) with (EvWIn i :: (l1 ++ l2) ++ [EvWOut i]) by (rewrite <- app_assoc; reflexivity).
+      rewrite E, filter_app', K1, K2, napp_app, <- app_assoc, napp_app. reflexivity.
 Qed.
 
 Lemma run_req_events : forall fl cfg ms i r r1 e l, run_req fl cfg ms i r = (r1, e, l) ->
@@ -750,29 +766,30 @@ Qed.
 
 Lemma wrapped_events : forall fl cfg a ro e l, wrapped_round_trip fl cfg a = (ro, e, l) ->
   filter is_ud l = [] /\ filter is_req l = [] /\
-  (filter is_cli l = user_evs EvCli (a_cli a) 0 \/ filter is_cli l = []) /\
-  (Forall (fun w => match w with WShort _ _ _ => False | _ => True end) (a_wraps a) -> a_getbody a = None ->
+  (exists k, filter is_cli l = napp k (user_evs EvCli (a_cli a) 0)) /\
+  (Forall calls_inner_once (a_wraps a) -> a_getbody a = None ->
      filter is_cli l = user_evs EvCli (a_cli a) 0 /\ In EvSend l).
 Proof.
-  intros fl cfg a ro e l H. unfold wrapped_round_trip in H.
-  destruct (round_trip fl cfg a) as [[ro0 e0] l0] eqn:R.
-  destruct (round_trip_events _ _ _ _ _ _ R) as (R1 & R2 & R3 & R4).
-  pose proof (run_wraps_events _ _ _ _ _ _ H) as W. cbn [snd] in W.
-  destruct (W is_ud (fun _ => eq_refl) (fun _ => eq_refl)) as [[U|U] _];
-  destruct (W is_req (fun _ => eq_refl) (fun _ => eq_refl)) as [[Q|Q] _];
-  destruct (W is_cli (fun _ => eq_refl) (fun _ => eq_refl)) as [C C'];
+  intros fl cfg a ro e l H. unfold wrapped_round_trip, round_trip in H.
+  destruct (round_trip_with fl cfg a (a_transport a)) as [[ro1 e1] l1] eqn:R1.
+  destruct (round_trip_with fl cfg a (a_transport2 a)) as [[ro2 e2] l2] eqn:R2.
+  destruct (round_trip_events _ _ _ _ _ _ _ R1) as (A1 & A2 & A3 & A4).
+  destruct (round_trip_events _ _ _ _ _ _ _ R2) as (B1 & B2 & B3 & B4).
+  pose proof (run_wraps_events _ _ _ _ _ _ _ H) as W. cbn [snd] in W.
+  assert (forall k, napp k (@nil event) = []) as NN by (induction k; cbn; auto).
+  destruct (W is_ud (fun _ => eq_refl) (fun _ => eq_refl)) as [(u1 & u2 & U) _]. rewrite A1, B1, !NN in U.
+  destruct (W is_req (fun _ => eq_refl) (fun _ => eq_refl)) as [(q1 & q2 & Q) _]. rewrite A2, B2, !NN in Q.
+  destruct (W is_cli (fun _ => eq_refl) (fun _ => eq_refl)) as [(c1 & c2 & C) C'].
   destruct (W is_send (fun _ => eq_refl) (fun _ => eq_refl)) as [_ S'].
-  all: rewrite ?R1 in U; rewrite ?R2 in Q.
-  all: split; [exact U|]; split; [exact Q|]; split.
-  all: try (destruct (a_getbody a) as [x|] eqn:G;
-            [ rewrite (R4 ltac:(discriminate)) in C; cbn in C; destruct C as [C|C]; right; exact C
-            | destruct (R3 eq_refl) as [R3' _]; rewrite R3' in C; exact C ]).
-  all: intros F G; assert (Forall (fun w => match w with WShort _ _ _ => False | _ => True end) (rev (a_wraps a))) as F'
-         by (apply Forall_rev; exact F);
-       destruct (R3 G) as [R3a [l' R3b]]; split; [rewrite (C' F'); exact R3a|];
-       specialize (S' F'); rewrite R3b in S'; cbn in S';
-       assert (In EvSend (filter is_send l)) as I by (rewrite S'; left; reflexivity);
-       apply filter_In in I; apply I.
+  split; [exact U|]. split; [exact Q|]. split.
+  - destruct (a_getbody a) as [x|] eqn:G.
+    + rewrite (A4 ltac:(discriminate)), (B4 ltac:(discriminate)) in C. cbn in C. rewrite !NN in C. exists 0%nat. exact C.
+    + destruct (A3 eq_refl) as [A3' _]. destruct (B3 eq_refl) as [B3' _]. rewrite A3', B3', napp_app in C. eexists; exact C.
+  - intros F G. assert (Forall calls_inner_once (rev (a_wraps a))) as F' by (apply Forall_rev; exact F).
+    destruct (A3 G) as [R3a [l' R3b]]. split; [rewrite (C' F'); exact R3a|].
+    specialize (S' F'). rewrite R3b in S'. cbn in S'.
+    assert (In EvSend (filter is_send l)) as I by (rewrite S'; left; reflexivity).
+    apply filter_In in I. apply I.
 Qed.
 
 Lemma eval_conds_rev_filter : forall vs i b l (f : event -> bool), eval_conds_rev vs i = (b, l) ->
@@ -851,9 +868,9 @@ Lemma response_middleware_after_every_attempt : forall fl cfg a n prev st l,
   (exists k, (k <= length (a_req a))%nat /\ filter is_req l = user_evs EvReq (firstn k (a_req a)) 0 /\
       (a_req a <> [] -> (1 <= k)%nat) /\
       (k < length (a_req a) -> exists ro x, st = Stop ro (Some x)))%nat /\
-  (Forall (fun w => match w with WShort _ _ _ => False | _ => True end) (a_wraps a) -> a_getbody a = None ->
+  (Forall calls_inner_once (a_wraps a) -> a_getbody a = None ->
       filter is_cli l = user_evs EvCli (a_cli a) 0 /\ In EvSend l) /\
-  (filter is_cli l = user_evs EvCli (a_cli a) 0 \/ filter is_cli l = []).
+  (exists k, filter is_cli l = napp k (user_evs EvCli (a_cli a) 0)).
 Proof.
   intros fl cfg a n prev st l H B0 Bi. unfold do_attempt in H.
   destruct (run_before (a_ud a) 0) as [e_ud l_ud] eqn:B. cbn in B0. subst e_ud. rewrite Bi in H.
@@ -1017,11 +1034,17 @@ Proof.
   rewrite E. apply IH. exact N1.
 Qed.
 
+Lemma handle_download_absent : forall cfg b r, r_present r = false -> handle_download cfg b r = None.
+Proof. intros cfg b r P. unfold handle_download. rewrite P. reflexivity. Qed.
+
+Lemma handle_download_nosave : forall cfg b r, c_save cfg = false -> handle_download cfg b r = None.
+Proof. intros cfg b r P. unfold handle_download. rewrite P, orb_true_r. reflexivity. Qed.
+
 (* Client.roundTrip: the returned error IS the recorded error, and a response is always returned *)
 Lemma round_trip_err_eq : forall fl cfg a ro e l, round_trip fl cfg a = (ro, e, l) ->
   exists r, ro = Some r /\ e = r_err r.
 Proof.
-  intros fl cfg a ro e l H. unfold round_trip in H. destruct (a_getbody a).
+  intros fl cfg a ro e l H. unfold round_trip, round_trip_with in H. destruct (a_getbody a).
   - inversion H; subst. eexists; split; reflexivity.
   - destruct (receive (a_transport a) fresh_resp) as [[r1 e1] b].
     destruct (run_cli_digests fl cfg (a_cli a) b _) as [[r3d bd] l_d].
@@ -1034,7 +1057,7 @@ Lemma transport_error_is_seen : forall fl cfg a x, a_getbody a = None -> a_trans
   Forall is_user (a_cli a) ->
   exists r l, round_trip fl cfg a = (Some r, r_err r, l) /\ r_err r = last_wins (Some x) (a_cli a) /\ r_present r = false.
 Proof.
-  intros fl cfg a x G T F. unfold round_trip. rewrite G, T. cbn [receive].
+  intros fl cfg a x G T F. unfold round_trip, round_trip_with. rewrite G, T. cbn [receive].
   rewrite (run_cli_digests_user fl cfg (a_cli a) _ _ F). cbn.
   destruct (run_cli fl cfg (a_cli a) 0 _) as [r6 l6] eqn:R.
   match type of R with run_cli _ _ _ _ ?rr = _ => pose proof (run_cli_user fl cfg (a_cli a) 0 rr F) as K end. rewrite R in K. cbn in K. destruct K as (K1 & K2 & _).
@@ -1043,17 +1066,17 @@ Qed.
 
 Lemma getbody_error_is_seen : forall fl cfg a x, a_getbody a = Some x ->
   exists r, round_trip fl cfg a = (Some r, Some x, []) /\ r_err r = Some x.
-Proof. intros fl cfg a x G. unfold round_trip. rewrite G. eexists. split; reflexivity. Qed.
+Proof. intros fl cfg a x G. unfold round_trip, round_trip_with. rewrite G. eexists. split; reflexivity. Qed.
 
 (* an unmarshalling failure surfaces as the round trip's error (unless a later middleware raises) *)
 Lemma unmarshal_error_is_seen : forall fl cfg a s chk b w x,
   a_getbody a = None -> a_transport a = TResp s chk b -> Forall is_user (a_cli a) ->
-  b_read b = None -> b_tf b = None ->
+  b_read b = None -> b_tf b = None -> c_save cfg = false ->
   applicable (c_targets cfg) (mkResp true s chk None false false ENone) = Some w -> um_of b w = Some x ->
   exists r l, round_trip fl cfg a = (Some r, r_err r, l) /\ r_err r = last_wins (Some x) (a_cli a) /\
               r_result r = false /\ r_error r = ENone.
 Proof.
-  intros fl cfg a s chk b w x G T F Rd Tf A U. unfold round_trip. rewrite G, T. cbn [receive].
+  intros fl cfg a s chk b w x G T F Rd Tf Sv A U. unfold round_trip, round_trip_with. rewrite G, T. cbn [receive].
   set (r2 := mkResp true s chk None false false ENone) in *.
   change (set_err None (set_http true s chk fresh_resp)) with r2.
   set (r3 := auto_read (c_autoread cfg) autoread_status_ok b r2).
@@ -1067,6 +1090,7 @@ Proof.
   assert (body_ok b r3) as B3 by (split; [exact E3|right; split; [exact Rd|exact Tf]]).
   destruct (unmarshal_failure_surfaces _ _ _ _ _ A3 B3 U) as (X1 & X2 & X3).
   destruct (parse_response_body (c_targets cfg) b r3) as [r4 e4] eqn:Pq. cbn in X1, X2, X3. subst e4.
+  rewrite (handle_download_nosave cfg b _ Sv).
   destruct (run_cli fl cfg (a_cli a) 0 (set_err (Some x) r4)) as [r6 l6] eqn:R.
   match type of R with run_cli _ _ _ _ ?rr = _ => pose proof (run_cli_user fl cfg (a_cli a) 0 rr F) as K end. rewrite R in K. cbn in K.
   destruct K as (K1 & _ & _ & _ & _ & K6 & K7).
@@ -1077,8 +1101,9 @@ Qed.
    registered is the outermost and has the last word on what do() receives *)
 Definition wrap_step (acc : option response * option err) (w : wrap) : option response * option err :=
   match w with
-  | WPass => acc
+  | WPass | WTwice => acc
   | WShort nilresp s t => ((if nilresp then None else Some (set_err s fresh_resp)), t)
+  | WFab st chk => (Some (mkResp true st chk None false false ENone), None)
   | WPost s t =>
     let ro1 := opt_set s (fst acc) in
     match t with
@@ -1089,22 +1114,44 @@ Definition wrap_step (acc : option response * option err) (w : wrap) : option re
     end
   end.
 
-Lemma run_wraps_fold : forall ws i inner,
-  fst (run_wraps ws i inner) = fold_right (fun w acc => wrap_step acc w) (fst inner) ws.
+(* (stated for chains without a wrapper that calls the inner round-tripper twice) *)
+Lemma run_wraps_fold : forall ws i inner inner2, Forall (fun w => w <> WTwice) ws ->
+  fst (run_wraps ws i inner inner2) = fold_right (fun w acc => wrap_step acc w) (fst inner) ws.
 Proof.
-  induction ws as [|w rest IH]; intros i inner; cbn; [reflexivity|].
+  induction ws as [|w rest IH]; intros i inner inner2 F; cbn; [reflexivity|].
+  inversion F as [|w' rest' Fw Frest]; subst.
   destruct w.
-  - destruct (run_wraps rest (pred i) inner) as [[ro e] l] eqn:R. cbn.
-    rewrite <- (IH (pred i) inner), R. reflexivity.
+  - destruct (run_wraps rest (pred i) inner inner2) as [[ro e] l] eqn:R. cbn.
+    rewrite <- (IH (pred i) inner inner2 Frest), R. reflexivity.
   - reflexivity.
-  - destruct (run_wraps rest (pred i) inner) as [[ro e] l] eqn:R.
-    rewrite <- (IH (pred i) inner), R. destruct ret; reflexivity.
+  - destruct (run_wraps rest (pred i) inner inner2) as [[ro e] l] eqn:R.
+    rewrite <- (IH (pred i) inner inner2 Frest), R. destruct ret; reflexivity.
+  - reflexivity.
+  - contradiction.
 Qed.
 
-Lemma wrapped_result_fold : forall fl cfg a,
+Lemma wrapped_result_fold : forall fl cfg a, Forall (fun w => w <> WTwice) (a_wraps a) ->
   fst (wrapped_round_trip fl cfg a) = fold_left wrap_step (a_wraps a) (fst (round_trip fl cfg a)).
 Proof.
-  intros fl cfg a. unfold wrapped_round_trip. rewrite run_wraps_fold, fold_left_rev_right. reflexivity.
+  intros fl cfg a F. unfold wrapped_round_trip. rewrite run_wraps_fold by (apply Forall_rev; exact F).
+  rewrite fold_left_rev_right. reflexivity.
+Qed.
+
+(* a wrapper that calls the inner round-tripper twice hands on what the SECOND call returned *)
+Lemma twice_returns_second : forall rest i in1 in2,
+  fst (run_wraps (WTwice :: rest) i in1 in2) = fst (run_wraps rest (pred i) in2 in2).
+Proof.
+  intros rest i in1 in2. cbn. destruct (run_wraps rest (pred i) in1 in2) as [[ro1 e1] l1].
+  destruct (run_wraps rest (pred i) in2 in2) as [[ro2 e2] l2]. reflexivity.
+Qed.
+
+(* a response made up by the outermost wrapper reaches do() as it is: it never went through
+   Client.roundTrip, so nothing is read and NOTHING IS BOUND, whatever targets are configured *)
+Lemma fabricated_response_not_bound : forall fl cfg a ws st chk,
+  a_wraps a = ws ++ [WFab st chk] ->
+  fst (wrapped_round_trip fl cfg a) = (Some (mkResp true st chk None false false ENone), None).
+Proof.
+  intros fl cfg a ws st chk W. unfold wrapped_round_trip. rewrite W, rev_app_distr. reflexivity.
 Qed.
 
 (* what do() keeps of (resp, err): a recorded error wins over the returned one *)
@@ -1119,7 +1166,8 @@ Qed.
 Lemma wrappers_all_pass : forall fl cfg a, Forall (fun w => w = WPass) (a_wraps a) ->
   fst (wrapped_round_trip fl cfg a) = fst (round_trip fl cfg a).
 Proof.
-  intros fl cfg a F. rewrite wrapped_result_fold. generalize (fst (round_trip fl cfg a)).
+  intros fl cfg a F. rewrite wrapped_result_fold by (eapply Forall_impl; [|exact F]; intros w Hw; cbn in Hw; rewrite Hw; discriminate).
+  generalize (fst (round_trip fl cfg a)).
   induction F as [|w ws Hw F IH]; intro acc; cbn; [reflexivity|]. subst w. cbn. apply IH.
 Qed.
 
@@ -1214,7 +1262,7 @@ Lemma round_trip_binding : forall fl cfg a r e l s chk b,
   r_error r = r_error (fst (parse_response_body (c_targets cfg) b r3)) /\
   r_present r = true /\ r_status r = s.
 Proof.
-  intros fl cfg a r e l s chk b H F G T. unfold round_trip in H. rewrite G, T in H. cbn [receive] in H.
+  intros fl cfg a r e l s chk b H F G T. unfold round_trip, round_trip_with in H. rewrite G, T in H. cbn [receive] in H.
   change (set_err None (set_http true s chk fresh_resp)) with (mkResp true s chk None false false ENone) in H.
   intro r3. fold r3 in H. rewrite (run_cli_digests_user fl cfg (a_cli a) _ _ F) in H.
   assert (r_result r3 = false /\ r_error r3 = ENone /\ r_present r3 = true /\ r_status r3 = s /\ r_chk r3 = chk) as (R3 & E3 & P3 & S3 & C3).
@@ -1223,12 +1271,14 @@ Proof.
     destruct (to_bytes_frame _ _ _ _ TB) as (X1 & X2 & X3 & X & Y & _). cbn. rewrite X1, X2, X3, X, Y. auto. }
   destruct (parse_response_body (c_targets cfg) b r3) as [r4 e4] eqn:Pq.
   destruct (parse_spec _ _ _ _ _ Pq) as (P4 & S4 & _).
-  destruct (run_cli fl cfg (a_cli a) 0 _) as [r6 l6] eqn:R.
-  match type of R with run_cli _ _ _ _ ?rr = _ => pose proof (run_cli_user fl cfg (a_cli a) 0 rr F) as K end.
+  match type of H with context [run_cli fl cfg (a_cli a) 0 ?rr] => set (r5' := rr) in H end.
+  assert (r_present r5' = r_present r4 /\ r_status r5' = r_status r4 /\ r_result r5' = r_result r4 /\ r_error r5' = r_error r4) as (Q1 & Q2 & Q3 & Q4).
+  { unfold r5'. destruct (handle_download cfg b _); destruct e4; cbn; auto. }
+  destruct (run_cli fl cfg (a_cli a) 0 r5') as [r6 l6] eqn:R.
+  pose proof (run_cli_user fl cfg (a_cli a) 0 r5' F) as K.
   rewrite R in K. cbn in K. destruct K as (_ & K2 & K3 & _ & _ & K6 & K7). injection H as Hr He Hl. subst r6.
-  cbn [fst]. rewrite K2, K3, K6, K7.
-  split; [exact R3|]. split; [exact E3|]. split; [exact P3|]. split; [exact S3|]. split; [exact C3|].
-  destruct e4; cbn; rewrite P4, S4, P3, S3; auto.
+  cbn [fst]. rewrite K2, K3, K6, K7, Q1, Q2, Q3, Q4, P4, S4, P3, S3.
+  split; [exact R3|]. split; [exact E3|]. split; [reflexivity|]. split; [reflexivity|]. split; [exact C3|]. auto.
 Qed.
 
 Lemma round_trip_no_binding : forall fl cfg a r e l,
@@ -1236,7 +1286,7 @@ Lemma round_trip_no_binding : forall fl cfg a r e l,
   (a_getbody a <> None \/ exists x, a_transport a = TFail x) ->
   r_result r = false /\ r_error r = ENone /\ r_present r = false /\ r_err r <> None.
 Proof.
-  intros fl cfg a r e l H F K. unfold round_trip in H.
+  intros fl cfg a r e l H F K. unfold round_trip, round_trip_with in H.
   destruct (a_getbody a) as [x|] eqn:G.
   { inversion H; subst. cbn. repeat split; auto. discriminate. }
   destruct K as [K|[x T]]; [contradiction|]. rewrite T in H. cbn [receive] in H.
@@ -1288,11 +1338,11 @@ Qed.
 
 (* digest: after a successful re-send the pinned middleware leaves the 401's error result bound
    and binds nothing from the 200; the repaired one re-binds *)
-Definition digest_witness_cfg : config := mkCfg (mkTargets true true false) true None None None false.
+Definition digest_witness_cfg : config := mkCfg (mkTargets true true false) true None None None false false.
 Definition digest_witness_resp : response :=   (* the 401 after auto-read and binding *)
   mkResp true 401 None None true false EReq.
 Definition digest_witness : digest_oracle :=
-  mkDigest None (TResp 200 None (mkBody None None None None None)).
+  mkDigest None (TResp 200 None (mkBody None None None None None None)).
 
 Lemma digest_pinned_refuted :
   let '(r, _, _) := digest_mw Pinned digest_witness_cfg digest_witness digest_witness_resp in
@@ -1307,8 +1357,8 @@ Proof. vm_compute. repeat split; reflexivity. Qed.
 (* do(): a wrapper that returns (nil, err) on a request with a retry option made the pinned
    loop dereference nil; the repaired loop retries with a response in hand *)
 Definition nil_wrapper_attempt : attempt :=
-  mkAttempt [] None [WShort true None (Some 1)] None (TFail 2) [] [] [] false false.
-Definition retry_cfg : config := mkCfg (mkTargets false false false) true None (Some (1, 1%nat)) None false.
+  mkAttempt [] None [WShort true None (Some 1)] None (TFail 2) (TFail 2) [] [] [] false false.
+Definition retry_cfg : config := mkCfg (mkTargets false false false) true None (Some (1, 1%nat)) None false false.
 
 Lemma do_pinned_nil_deref : do_first_pinned Fixed retry_cfg nil_wrapper_attempt = PNilDeref.
 Proof. vm_compute. reflexivity. Qed.
@@ -1323,3 +1373,40 @@ Lemma nil_wrapper_fixed :
   run Fixed (mkProg ESend retry_cfg [nil_wrapper_attempt; nil_wrapper_attempt]) =
   Returned (Some (set_err (Some 1) fresh_resp)) (Some 1) [[EvWIn 0; EvWOut 0; EvHook 0]; [EvWIn 0; EvWOut 0]] 0.
 Proof. vm_compute. reflexivity. Qed.
+
+(* ---------- download (SetOutput / SetOutputFile) next to result targets ---------- *)
+
+Lemma to_bytes_cached : forall b r r1, r_present r = true -> to_bytes b r = (r1, None) -> r_cached r1 = true.
+Proof.
+  intros b r r1 P H. unfold to_bytes in H. destruct (r_err r); [discriminate|].
+  destruct (r_cached r) eqn:C; [inversion H; subst; exact C|]. rewrite P in H. cbn in H.
+  destruct (b_read b); [discriminate|]. destruct (b_tf b); [discriminate|]. inversion H; subst. reflexivity.
+Qed.
+
+(* when a target made the binding step read the body, the body is in the cache afterwards:
+   the download that follows writes the cached bytes and cannot hit a read error - result
+   target and download both get the whole body *)
+Lemma binding_then_download_from_cache : forall cfg tg b r w,
+  applicable tg r = Some w -> body_ok b r ->
+  let r' := fst (parse_response_body tg b r) in
+  r_cached r' = true /\ (c_save cfg = true -> handle_download cfg b r' = b_write b).
+Proof.
+  intros cfg tg b r w A B. rewrite parse_as_applicable, A.
+  pose proof (applicable_present _ _ _ A) as P.
+  unfold unmarshal_body. destruct (to_bytes b r) as [r1 e1] eqn:T.
+  destruct e1 as [x|]; [exfalso; eapply to_bytes_fail; eauto|].
+  pose proof (to_bytes_cached _ _ _ P T) as C. destruct (to_bytes_frame _ _ _ _ T) as (P1 & _).
+  assert (r_cached (match um_of b w with None => bind w r1 | Some _ => r1 end) = true /\
+          r_present (match um_of b w with None => bind w r1 | Some _ => r1 end) = true) as [C' P'].
+  { destruct (um_of b w); [rewrite P1; auto|]. destruct w; cbn; rewrite P1; auto. }
+  destruct (um_of b w); cbn [fst] in *; (split; [exact C'|]); intro Sv; unfold handle_download; rewrite P', Sv, C'; reflexivity.
+Qed.
+
+(* without a target nothing reads the body first: the download streams it, a read error is the download's error *)
+Lemma download_streams_when_unread : forall cfg b r,
+  c_save cfg = true -> r_present r = true -> r_cached r = false ->
+  handle_download cfg b r = match b_read b with Some e => Some e | None => b_write b end.
+Proof. intros cfg b r S P C. unfold handle_download. rewrite P, S, C. reflexivity. Qed.
+
+Lemma no_download_without_save : forall cfg b r, c_save cfg = false -> handle_download cfg b r = None.
+Proof. exact handle_download_nosave. Qed.
